@@ -18,7 +18,7 @@ theorem open_prefix12 (g v k rk : List Nat) (t : Nat) (dst nonce ct aad tmp : Li
     (htmp : tmp.length = 32) :
     ∃ s5 N, N ≤ 34 * (aad.length / 16) + 1400 ∧ Reach openR 0 (openState g v k rk t dst nonce ct aad tmp r0) 1499 s5 N ∧
       AfterPre (fun b => fmem "cipher" false rk dst nonce ct aad b) rk nonce aad (nonce ++ [0, 0, 0, 1])
-        81604378624 94489280512 90194313216 s5 := by
+        81604378624 94489280512 90194313216 s5 ∧ s5.frame = (openState g v k rk t dst nonce ct aad tmp r0).frame := by
   have e := fenv_of (openState g v k rk t dst nonce ct aad tmp r0) "cipher" false rk dst nonce ct aad tmp (open_mem ..) (open_syms ..)
     (by simp [openState, mkState, lookup]; rfl) (by simp [openState, mkState, lookup]; rfl) (by simp [openState, mkState, lookup])
     (by simp [openState, mkState, lookup]; rfl) (by simp [openState, mkState, lookup]; rfl) (by simp [openState, mkState, lookup])
